@@ -275,6 +275,9 @@ def check(run, views, tier):
         run.cfg = cfg
         cr.r_tagmap(run, crates["ipp"], TL, check_registry=True)
         cr.r_tagbody_bracket(run, crates["ipp"], TL)
+        # "the codes the library ... recognises": the parser's tag dispatch is the registry's partition, unknown delimiters are rejected
+        from .. import readerrules as rr
+        rr.r_dispatch(run, crates["ipp"])
     run.meta.setdefault("coverage_extra", {})["exhaustive"] = True
     run.meta["coverage_extra"]["inputs_enumerated"] = exhaustive_inputs
 
